@@ -83,6 +83,15 @@ def make_variants(rng, prog, input_rels, cname, init_rel, init_rows, bogus_rows)
         v = E.Variant('redecl', p2, 'ascent', body_text='\n'.join('      ' + l for l in head + items[:k] + [bogus] + items[k:]) if k <= [i for i, l in enumerate(items) if l.startswith(('relation %s(' % init_rel, 'lattice %s(' % init_rel))][0]
                       else '\n'.join('      ' + l for l in head + [bogus] + items))
         add(v, 're-declared relation %s: the later declaration wins' % init_rel, inputs_include_init=False)
+        # the same through include_source!: the included chunk carries the bogus declaration and is included FIRST;
+        # the program's own (later) declaration must win, in serial and parallel macros
+        for nm, kind, par in (('incredecl', 'ascent', False), ('incredeclpar', 'ascent_par', True)):
+            head2, items2 = p2.lines(init_texts={init_rel: vec_lit(rel, init_rows, par=par)})
+            src = '%s_%s_b' % (cname, nm)
+            pre = '   pub mod m_%s {\n      ascent::ascent_source! { %s:\n         %s\n      }\n   }' % (src, src, rel.decl(vec_lit(rel, bogus_rows, par=par)))
+            body = head2 + ['include_source!(m_%s::%s);' % (src, src)] + items2
+            v = E.Variant(nm, p2, kind, pre_items=pre, body_text='\n'.join('      ' + l for l in body))
+            add(v, 'included source declares %s with a bogus initialiser; the later declaration wins (%s)' % (init_rel, kind), inputs_include_init=False)
     return vs
 
 
